@@ -32,6 +32,14 @@ def pool(ctx):
           ['x', 'x', 'y'], ['x', 'y', 'y'], ['x', 'y'], [2, 2, 1], [1, 2, 2],
           [1, [1]], [1, []], [1, [2, 1]], [1, [2]], ['a', ('a', 'b')], ['a', ('b',)], [1, {'k': 1}], [1, {}], [[1], 1], [[], 1], ('a', ['a']), ('a', []),
           {'k': 1, 'j': [1]}, {'k': 1, 'j': []}, [2, [1, [2]]], [2, [1, []]]]
+    # long numbers that differ beyond the usual precision, and the other numeric / date-like leaf types
+    import decimal as _dc, datetime as _dtm, uuid as _uuid
+    D = _dc.Decimal
+    odd = [D('1.0000000000000000000000000000001'), D('1.0000000000000000000000000000002'), D('1.00000000000000000000000000001'), D('12345678901234567890123456789012'),
+           D('12345678901234567890123456789013'), D('0.1'), D('0.10'), D('-0.1'), 10 ** 30, 10 ** 30 + 1, -10 ** 30, 1e300, 1.0000000000000002, 1 - 2j, 1 + 2j, 2j,
+           _dtm.date(2020, 1, 1), _dtm.date(2020, 1, 2), _dtm.time(1, 2, 3), _dtm.time(1, 2, 3, 5), _dtm.timedelta(1), _dtm.timedelta(1, 0, 1),
+           _dtm.datetime(2020, 1, 1, tzinfo=_dtm.timezone.utc), _dtm.datetime(2020, 1, 1, 0, 0, 0, 1, tzinfo=_dtm.timezone.utc), _uuid.UUID(int=1), _uuid.UUID(int=2)]
+    P += odd + [[x] for x in odd[:8]] + [{'k': x} for x in odd[:5]]
     g = Gen(ctx.rng, scalars=[1, 2, 'a', None, True, 1.5], keys=['a', 'b'], max_depth=2, max_width=3)
     for _ in range(80 if ctx.thorough() else 25):
         v = g.value()
@@ -42,6 +50,39 @@ def pool(ctx):
         inner = [ctx.rng.choice([2, 'b', 3]), x]
         P.append([x, inner]); P.append([x, inner[:1]])
     return P
+
+
+def shared_table(ctx):
+    """different content hashed into one long-lived table (temporaries that are freed, a container edited between calls) still gets
+    different digests: an entry written for an object that no longer exists, or that has changed, must not answer for another value"""
+    from deepdiff import DeepHash
+    for mname in CLAIMED:
+        rep, order = HS.MODES[mname]
+        kw = dict(ignore_repetition=rep, ignore_iterable_order=order)
+        table = {}
+        seen = {}
+        for i in range(120 if ctx.thorough() else 40):
+            tmp = [i, i + 100] if i % 3 else (0, {'a': i})
+            hsh = DeepHash(tmp, hashes=table, **kw)[tmp]
+            ctx.evaluations += 1
+            key = HS.canon(tmp, mname)
+            for k2, h2 in seen.items():
+                if h2 == hsh and k2 != key:
+                    ctx.violate({'a': repr(tmp), 'b': repr(k2), 'mode': mname, 'scenario': 'one long-lived hashes table, earlier values freed'},
+                                'same hash although the values are not equivalent (an entry of a freed object answered)'); break
+            seen[key] = hsh
+            del tmp
+        lst = [1, 2, 3]
+        h1 = DeepHash(lst, hashes=table, **kw)[lst]
+        lst.append(4)
+        h2 = DeepHash(lst, hashes=table, **kw)[lst]
+        lst[0] = 'one'
+        h3 = DeepHash(lst, hashes=table, **kw)[lst]
+        ctx.evaluations += 1
+        if len({h1, h2, h3}) != 3:
+            ctx.violate({'a': '[1, 2, 3]', 'b': repr(lst), 'mode': mname, 'scenario': 'one table, the list edited in place between calls'},
+                        'same hash for a list before and after it was edited')
+        ctx.count('shared_table')
 
 
 def run(ctx, impl_only=False):
@@ -82,6 +123,7 @@ def run(ctx, impl_only=False):
             if eq and not same:
                 ctx.count('equivalent_but_different_hash')      # the other direction belongs to C06; recorded, not judged here
         ctx.sample({'mode': mname, 'pool_size': len(P)})
+    shared_table(ctx)
     # ---- boundary witnesses
     from deepdiff import DeepHash, DeepDiff
     def h(v, **kw):
